@@ -1,11 +1,11 @@
 (* C20 — lemmas about finite sums of rationals and masked convex combinations. *)
-From Coq Require Import List Arith Bool ZArith QArith Qabs Lia Lra Permutation Setoid Morphisms.
-From PV Require Import C20.Model.
+From Coq Require Import List Arith Bool ZArith QArith Qabs Lia Lqa Permutation Setoid Morphisms.
+From PV Require Import C20.Model C20.Spec.
 Import ListNotations.
 Local Open Scope Q_scope.
 
 (* plain sum, the reference for [qsum] *)
-Fixpoint psum (l : list Q) : Q := match l with [] => 0 | x :: t => x + psum t end.
+
 
 Lemma strip2_eq n : forall d,
   (Zpos (fst (strip2 n d)) * Zpos d = Zpos n * Zpos (snd (strip2 n d)))%Z.
